@@ -26,6 +26,10 @@ HARV_SITES = ["harvTest", "harvLoad", "harvRemove", "harvSave"]
 EXTS = ["", ".h5", ".dmp"]
 DOTTED = ".5"      # the logical name 'data_T0.5' (a dot, no engine extension) with the sibling 'data_T0.25' next to it
 DECOY_OPS = ["Save", "Load", "LoadNew", "SaveMerge", "HarvFresh", "Delete"]
+MAGIC = ["[1]", "[T=0.5]", "*b", "?b"]   # 'data[1]' (+ 'data1'), 'sweep[T=0.5]' (+ 'sweepT'), 'a*b' / 'a?b' (+ 'axb'): literal names
+SIB_EXTS = [DOTTED] + MAGIC              # names that come with a sibling name in the same directory
+MAGIC_OPS_QUICK = ["Save", "Load", "LoadNew", "SaveMerge", "HarvFresh", "SaveSib"]
+TEXTS = {"obj": '{"kind": "power-law"}', "emptyobj": "{}", "arr": "[1, 2]", "num": "1.5", "null": "null", "quoted": '"x"'}
 DOTTED_OPS = ["Save", "Load", "LoadNew", "SaveMerge", "HarvFresh", "Delete", "SaveSib", "LoadSib"]
 ENGINES = ["h5netcdf", "joblib"]
 POL = {"none": None, "true": True, "false": False}
@@ -50,28 +54,37 @@ def _tlc(*a, **kw):
         return tlc.run_mc(*a, **kw)
 
 
+def _extid(ext):
+    """the name flavour as part of a TLA+ module name"""
+    return {"[1]": "_br1", "[T=0.5]": "_brT", "*b": "_star", "?b": "_qm"}.get(ext, ext.replace(".", "_"))
+
+
+def _name_of(ext):
+    return {".5": "data_T0.5", "[1]": "data[1]", "[T=0.5]": "sweep[T=0.5]", "*b": "a*b", "?b": "a?b"}.get(ext, "data" + ext)
+
+
 def _set(x):
     return set(x) if x else tlc.Raw("{}")
 
 
 def run_naming(ext, eng, maxlen, pols=("none",), raw=(), deff=(), emit=False, tag="", namerule="append", ctor=None, ctorsites=(),
-               decoy="none", bare=(), **kw):
+               decoy="none", bare=(), globsites=(), ops=None, **kw):
     consts = dict(NameExt=ext, NameRule=namerule, Engine=eng, CtorEngine=ctor or eng, CtorEngSites=_set(ctorsites),
                   MaxLen=maxlen, Policies=_set(pols),
-                  Decoy=decoy, BareIfExistsSites=_set(bare),
-                  OpsOn=_set(DECOY_OPS if decoy != "none" else DOTTED_OPS if ext == DOTTED else ALLOPS),
+                  Decoy=decoy, BareIfExistsSites=_set(bare), GlobSites=_set(globsites),
+                  OpsOn=_set(ops or (DECOY_OPS if decoy != "none" else DOTTED_OPS if ext in SIB_EXTS else ALLOPS)),
                   RawSites=_set(raw), DefEngSites=_set(deff), RtRule="ok")
     tail = "".join("INVARIANT %s\n" % i for i in INV) + ("INVARIANT EmitCase\n" if emit else "") + "CHECK_DEADLOCK FALSE\n"
-    return _tlc("DsStore", consts, tail, name="MC_DsStore_%s%s_%s%s" % (eng, ext.replace(".", "_"), tag, ("_ctor" if ctor else "") + ("_" + decoy if decoy != "none" else "")), **kw)
+    return _tlc("DsStore", consts, tail, name="MC_DsStore_%s%s_%s%s" % (eng, _extid(ext), tag, ("_ctor" if ctor else "") + ("_" + decoy if decoy != "none" else "")), **kw)
 
 
 def run_rt(ext, eng, rule="ok", emit=False, **kw):
     consts = dict(NameExt=ext, NameRule="append", Engine=eng, CtorEngine=eng, CtorEngSites=_set([]), Decoy="none",
-                  BareIfExistsSites=_set([]), MaxLen=0, Policies=_set(["none"]), OpsOn=_set([]),
+                  BareIfExistsSites=_set([]), GlobSites=_set([]), MaxLen=0, Policies=_set(["none"]), OpsOn=_set([]),
                   RawSites=_set([]), DefEngSites=_set([]), RtRule=rule)
     tail = "INIT RtInit\nNEXT RtNext\n" + "".join("INVARIANT %s\n" % i for i in RTINV) \
         + ("INVARIANT RtEmit\n" if emit else "") + "CHECK_DEADLOCK FALSE\n"
-    return _tlc("DsStore", consts, tail, name="MC_DsStoreRt_%s%s_%s" % (eng, ext.replace(".", "_"), rule), **kw)
+    return _tlc("DsStore", consts, tail, name="MC_DsStoreRt_%s%s_%s" % (eng, _extid(ext), rule), **kw)
 
 
 # ---------------------------------------------------------------------------
@@ -182,11 +195,11 @@ def check_hist(c):
                 got_st, exc = "raises", "%s: %s" % (type(e).__name__, str(e)[:160])
             where = "step %d (%s%s) of %s with name %r%s, engine %s" % (
                 n + 1, op, "" if st["pol"] == "none" else ", overwrite=%s" % POL[st["pol"]],
-                [s["op"] for s in c["hist"]], name, (" (sibling %r)" % sib) if ext == DOTTED else "",
+                [s["op"] for s in c["hist"]], name, (" (sibling %r)" % sib) if ext in SIB_EXTS else "",
                 eng if ctor == eng else "%s given per call (Harvester constructed with %s)" % (eng, ctor))
             if decoy != "none":
                 where += ", next to %s called %r" % ("a folder" if decoy == "dir" else "an older dataset file (piece 99)", name)
-            key = dict(part="naming", op=op, percall=(ctor != eng), decoy=decoy, hasext=ext in (".h5", ".dmp"), dotted=(ext == DOTTED), engine=eng)
+            key = dict(part="naming", op=op, percall=(ctor != eng), decoy=decoy, hasext=ext in (".h5", ".dmp"), dotted=(ext == DOTTED), magic=(ext in MAGIC), engine=eng)
             want_st = st["st"] if st["st"] in ("ok", "blank") else "raises"
             if got_st != want_st:
                 if got_st == "blank":
@@ -277,6 +290,8 @@ def attr_value(tok):
         return float(val)
     if kind == "str":
         return val
+    if kind == "text":          # a plain string that happens to look like a serialised value
+        return TEXTS[val]
     if kind == "seq":
         return [int(x) for x in val.split(",")]
     raise RuntimeError("harness: unknown attribute token %r" % tok)
@@ -292,6 +307,8 @@ def attr_matches(tok, val):
         return isinstance(val, (bool, np.bool_)) and bool(val) is want
     if kind == "str":
         return isinstance(val, str) and val == w
+    if kind == "text":
+        return isinstance(val, str) and val == TEXTS[w]
     if isinstance(val, (str, bytes)) or val is None:
         return False
     if kind in ("int", "float", "npint"):
@@ -428,7 +445,8 @@ def run(rep):
     len_a, len_b = (5, 3) if thorough else (4, 2)
     rep.rule = ("part 1: DsStore.tla explores every history of Save/Load/LoadNew(create_new)/SaveMerge/HarvFresh/HarvSame/Delete of length "
                 "%d (overwrite=None; one less for the names that carry an extension; quick tier: also for 'data' with h5netcdf) and %d (all three policies) "
-                "for name in {data, data.h5, data.dmp, data_T0.5 (+ sibling data_T0.25 in the same directory)} x engine in "
+                "for name in {data, data.h5, data.dmp, data_T0.5 (+ sibling data_T0.25 in the same directory), literal names with glob "
+                "metacharacters data[1] (+ data1), sweep[T=0.5] (+ sweepT), a*b / a?b (+ axb)} x engine in "
                 "{h5netcdf, joblib}; a history is non-trivial when it contains a merge or delete after a save; part 2: "
                 "every (ndim 0-4, variable dtype, coordinate dtype, NaN pattern, attribute set, chunks) configuration; "
                 "distinct = distinct (name, engine, history) resp. (name, engine, configuration)" % (len_a, len_b))
@@ -473,6 +491,12 @@ def run(rep):
             jobs[("D" + d, e, g)] = ex.submit(run_naming, e, g, len_a - 1, ("none",), emit=True, tag="D", decoy=d,
                                               workers=1, coverage=True)
         jobs[("bare", "load")] = ex.submit(run_naming, "", "joblib", 3, decoy="file", bare=["load"], tag="bareload", workers=1)
+        # literal names containing glob metacharacters, each with a sibling the pattern would match
+        mcombos = [(e, g) for e in MAGIC for g in ENGINES] if thorough else [("[1]", "h5netcdf"), ("[T=0.5]", "joblib"), ("*b", "joblib")]
+        for e, g in mcombos:
+            jobs[("M", e, g)] = ex.submit(run_naming, e, g, len_a - 1, ("none",), emit=True, tag="M", workers=1, coverage=True,
+                                          ops=None if thorough else MAGIC_OPS_QUICK)
+        jobs[("glob", "load")] = ex.submit(run_naming, "[1]", "h5netcdf", 3, globsites=["load"], tag="glob", workers=1)
         jobs[("namerule", "splitext")] = ex.submit(run_naming, DOTTED, "h5netcdf", 3, namerule="splitext", tag="splitext", workers=1)
         # deviating implementations the invariants must reject
         jobs[("pinned", "", "h5netcdf")] = ex.submit(run_naming, "", "h5netcdf", 3, raw=["mergeTest", "harvTest", "harvRemove"],
@@ -482,11 +506,12 @@ def run(rep):
         for site in SITES:
             jobs[("site", site)] = ex.submit(run_naming, "", "joblib", 3, raw=[site], tag="raw_" + site, workers=1)
         for rule, eng in (("rewriteAlways", "joblib"), ("rewriteNever", "h5netcdf"), ("rewriteByEquality", "h5netcdf"),
+                          ("decodeJsonText", "h5netcdf"),
                           ("lazyStale", "h5netcdf")):
             jobs[("rtrule", rule)] = ex.submit(run_rt, "", eng, rule=rule, workers=1)
         results = {k: f.result() for k, f in jobs.items()}
     for k, r in results.items():
-        if k[0] in ("pinned", "rtrule", "namerule", "ctorsites", "bare") or (k[0] == "site" and k[1] != "harvRemove"):
+        if k[0] in ("pinned", "rtrule", "namerule", "ctorsites", "bare", "glob") or (k[0] == "site" and k[1] != "harvRemove"):
             if r.violated is None:
                 raise tlc.TLCError("self-test failed: deviating model %r is not rejected by the invariants" % (k,))
     rep.note("self-test: TLC rejects the pinned naming (%s for 'data'/h5netcdf, %s for 'data.dmp'/joblib), every single site "
@@ -498,18 +523,22 @@ def run(rep):
     rep.note("self-test: TLC rejects NameRule='splitext' (unknown suffix replaced by the extension) for 'data_T0.5': %s; "
              "and Harvester sites using the constructor's engine instead of the call's: %s"
              % (results[("namerule", "splitext")].violated, results[("ctorsites", "all")].violated))
+    rep.note("self-test: TLC rejects load_ds expanding a name with glob metacharacters as a pattern: %s" % results[("glob", "load")].violated)
     rep.note("self-test: TLC rejects load_ds using the bare name when an older dataset file of that name exists: %s"
              % results[("bare", "load")].violated)
     hists, rts = [], []
-    for (kind, ext, eng), r in [(k, r) for k, r in results.items() if k[0] in ("A", "B", "C", "Ddir", "Dfile", "rt")]:
+    for (kind, ext, eng), r in [(k, r) for k, r in results.items() if k[0] in ("A", "B", "C", "Ddir", "Dfile", "M", "rt")]:
         rep.add_tlc("DsStore %s name=%s engine=%s" % ({"A": "naming", "B": "naming+policies", "C": "naming, engine per call", "Ddir": "naming, folder of the bare name present",
-                                                        "Dfile": "naming, older file of the bare name present", "rt": "round-trip"}[kind],
-                                                       "data_T0.5" if ext == DOTTED else "data" + ext, eng), r)
+                                                        "Dfile": "naming, older file of the bare name present",
+                                                        "M": "naming, glob metacharacters in the name", "rt": "round-trip"}[kind],
+                                                       _name_of(ext), eng), r)
         if r.violated:
             raise tlc.TLCError("DsStore.tla: invariant %s violated (%s, data%s, %s)" % (r.violated, kind, ext, eng))
         need = ["RtSave", "RtLoadEager", "RtLoadLazy"] if kind == "rt" else ["Save", "Load", "LoadNew", "SaveMerge", "HarvSync", "Delete"]
-        if ext == DOTTED and not kind.startswith("D"):
-            need += ["SaveSib", "LoadSib"]
+        if ext in SIB_EXTS and not kind.startswith("D"):
+            need += ["SaveSib"] + (["LoadSib"] if (thorough or kind != "M") else [])
+        if kind == "M" and not thorough:
+            need.remove("Delete")
         for act in need:
             if r.coverage.get(act, (0, 0))[1] == 0:
                 raise tlc.TLCError("vacuous: action %s never taken (%s, data%s, %s)" % (act, kind, ext, eng))
@@ -520,7 +549,7 @@ def run(rep):
     rep.extra["histories"] = len(hists)
     rep.extra["roundtrip_configs_emitted"] = len(rts)
     if not thorough:
-        rts = rnd.sample(rts, min(len(rts), 1600))
+        rts = rnd.sample(rts, min(len(rts), 1400))
     rep.extra["roundtrip_configs_replayed"] = len(rts)
     # binding self-test: corrupted expectations must be rejected by the replay
     import copy
